@@ -225,8 +225,12 @@ func runC18(c *Ctx) {
 				continue
 			}
 			buildsWS := false
+			inCone := map[*ssa.Function]bool{}
+			for _, g := range p.cone(fn) {
+				inCone[g] = true
+			}
 			for _, u := range usesOfKind(p.uses(r.FSock), "store") {
-				if u.Fn == fn {
+				if u.Fn == fn || inCone[u.Fn] {
 					buildsWS = true
 				}
 			}
@@ -238,47 +242,48 @@ func runC18(c *Ctx) {
 				if !ok {
 					return
 				}
-				mc, ok := stripConv(rt.Results[0]).(*ssa.MakeClosure)
-				if !ok {
-					return
+				if k, isK := rt.Results[0].(*ssa.Const); isK && k.Value == nil {
+					return // the failure return
 				}
-				n++
-				cl := mc.Fn.(*ssa.Function)
-				construct := fmt.Sprintf("%s: closer", fname(fn))
-				okAll := true
-				allInstrs(cl, func(x ssa.Instruction) {
-					switch y := x.(type) {
-					case *ssa.Return, *ssa.UnOp, *ssa.DebugRef, *ssa.RunDefers, *ssa.Jump:
-						if u, ok := y.(*ssa.UnOp); ok && u.Op == token.ARROW {
-							okAll = false
-						}
-					case *ssa.Call:
-						ci, isClose := isBuiltinCall(y, "close")
-						if !isClose {
-							okAll = false
-							return
-						}
-						src := p.canonVar(stripLoad(ci.Call.Args[0]))
-						if al, ok := src.(*ssa.Alloc); ok {
-							made := false
-							for _, ref := range *al.Referrers() {
-								if st, ok := ref.(*ssa.Store); ok && st.Addr == ssa.Value(al) {
-									if _, ok := st.Val.(*ssa.MakeChan); ok {
-										made = true
-									}
-								}
-							}
-							if !made {
+				// the closer may be built by a helper (closeOnStop): every function the returned value can be
+				for _, cl := range c.funcsOf(blockLocalValue(rt.Results[0])) {
+					n++
+					construct := fmt.Sprintf("%s: closer", fname(fn))
+					okAll := true
+					allInstrs(cl, func(x ssa.Instruction) {
+						switch y := x.(type) {
+						case *ssa.Return, *ssa.UnOp, *ssa.DebugRef, *ssa.RunDefers, *ssa.Jump:
+							if u, ok := y.(*ssa.UnOp); ok && u.Op == token.ARROW {
 								okAll = false
 							}
-						} else if _, ok := src.(*ssa.MakeChan); !ok {
+						case *ssa.Call:
+							ci, isClose := isBuiltinCall(y, "close")
+							if !isClose {
+								okAll = false
+								return
+							}
+							src := p.canonVar(stripLoad(ci.Call.Args[0]))
+							if al, ok := src.(*ssa.Alloc); ok {
+								made := false
+								for _, ref := range *al.Referrers() {
+									if st, ok := ref.(*ssa.Store); ok && st.Addr == ssa.Value(al) {
+										if _, ok := st.Val.(*ssa.MakeChan); ok {
+											made = true
+										}
+									}
+								}
+								if !made {
+									okAll = false
+								}
+							} else if _, ok := src.(*ssa.MakeChan); !ok {
+								okAll = false
+							}
+						default:
 							okAll = false
 						}
-					default:
-						okAll = false
-					}
-				})
-				c.check(okAll, "R18.4", construct, p.pos(cl.Pos()), "only closes the constructor's own channel", "the closer of a request/response client does more than close its own stop channel (it can block, or disturb calls in progress)")
+					})
+					c.check(okAll, "R18.4", construct, p.pos(cl.Pos()), "only closes the constructor's own channel", "the closer of a request/response client does more than close its own stop channel (it can block, or disturb calls in progress)")
+				}
 			})
 		}
 		if n == 0 {
